@@ -27,11 +27,12 @@ type c06Case struct {
 
 func c06Run(c c06Case, M uint32, maxDraws int) (impl map[string]int, total int, ent float32, fail string) {
 	seps := "-_.:+"
+	// one list for all streams: NewWordList orders the kept words by Go map iteration, which differs between constructions
+	wl, werr := NewWordList(c.Words)
+	if werr != nil {
+		return nil, 0, 0, vSprint("NewWordList: ", werr)
+	}
 	mk := func() *WLRecipe {
-		wl, err := NewWordList(c.Words)
-		if err != nil {
-			panic(err)
-		}
 		r := NewWLRecipe(c.Length, wl)
 		r.Capitalize = c.Cap
 		if c.SepN > 0 {
